@@ -1,8 +1,8 @@
 //! C13 Every packet the client emits is well formed and retransmissions are identical.
 
 use super::explore::{self, Event, Monitor, Step, Target};
-use super::server::{lt_key, Chal, NonceKind, PasKind, RClass, RMac, Reply, REALM};
-use super::world::{CallRes, Cfg, Mech, OEv, Transport, Who, World, PASS, USER};
+use super::server::{Chal, NonceKind, PasKind, RClass, RMac, Reply, REALM};
+use super::world::{CallRes, Cfg, Mech, OEv, Transport, Who, World};
 use crate::refs::codec::{self, ref_parse, value_bytes, L};
 use crate::util::{Finish, Report, RunCtx, Shared};
 use rayon::prelude::*;
@@ -56,13 +56,17 @@ struct Rep {
 }
 
 fn reps(fingerprint: bool, reliable: bool) -> Vec<Rep> {
+    reps_for(fingerprint, reliable, 0)
+}
+
+fn reps_for(fingerprint: bool, reliable: bool, cred: u8) -> Vec<Rep> {
     let tr = if reliable { Transport::Reliable { timeout_ms: 1000 } } else { Transport::Unreliable { rto_ms: 100, gran_ms: 1, rm: 2, rc: 3 } };
-    let cfg = |m: Mech| Cfg { transport: tr, mech: m, fingerprint, max_tx: 10 };
+    let cfg = |m: Mech| Cfg { transport: tr, mech: m, fingerprint, max_tx: 10, cred, method: 1 };
     let fp = if fingerprint { super::server::RFp::Valid } else { super::server::RFp::Absent };
     let ok = |m: RMac| Reply::plain(RClass::Success).with_mac(m).with_fp(fp);
-    let c401 = |n: NonceKind, p: PasKind| Reply::plain(RClass::Error(401)).with_chal(Chal { realm: true, nonce: n, pas: p, realm_v: 0 }).with_fp(fp);
-    let c401v = |n: NonceKind, p: PasKind, v: u8| Reply::plain(RClass::Error(401)).with_chal(Chal { realm: true, nonce: n, pas: p, realm_v: v }).with_fp(fp);
-    let c438 = |n: NonceKind, p: PasKind, m: RMac| Reply::plain(RClass::Error(438)).with_chal(Chal { realm: false, nonce: n, pas: p, realm_v: 0 }).with_mac(m).with_fp(fp);
+    let c401 = |n: NonceKind, p: PasKind| Reply::plain(RClass::Error(401)).with_chal(Chal { realm: true, nonce: n, pas: p, realm_v: 0, order: 0 }).with_fp(fp);
+    let c401v = |n: NonceKind, p: PasKind, v: u8| Reply::plain(RClass::Error(401)).with_chal(Chal { realm: true, nonce: n, pas: p, realm_v: v, order: 0 }).with_fp(fp);
+    let c438 = |n: NonceKind, p: PasKind, m: RMac| Reply::plain(RClass::Error(438)).with_chal(Chal { realm: false, nonce: n, pas: p, realm_v: 0, order: 0 }).with_mac(m).with_fp(fp);
     let d = |i: usize, r: Reply| Event::Deliver { to: Target::Req(i), reply: r };
     let s = Event::Send { app: 0 };
     let cookie = NonceKind::Cookie(true, true, 1);
@@ -212,12 +216,12 @@ fn check_packet(rep_: &Rep, app: &[L], bytes: &[u8], class: u8, method: u16, ear
         }
         // replaced, not the application's value
         match t.ty {
-            codec::T_USERNAME if t.value != USER.as_bytes() => return Err(("application-USERNAME-not-replaced".into(), String::from_utf8_lossy(&t.value).into())),
+            codec::T_USERNAME if t.value != rep_.cfg.creds().user.as_bytes() => return Err(("application-USERNAME-not-replaced".into(), String::from_utf8_lossy(&t.value).into())),
             codec::T_REALM if t.value != rep_.realm.as_bytes() => return Err(("application-REALM-not-replaced".into(), String::from_utf8_lossy(&t.value).into())),
             codec::T_NONCE if Some(t.value.as_slice()) != rep_.nonce.as_deref().map(|s| s.as_bytes()) => {
                 return Err(("NONCE-is-not-the-server's".into(), String::from_utf8_lossy(&t.value).into()))
             }
-            codec::T_USERHASH if t.value != crate::refs::crypto::sha256(format!("{}:{}", USER, rep_.realm).as_bytes()) => {
+            codec::T_USERHASH if t.value != crate::refs::crypto::sha256(format!("{}:{}", rep_.cfg.creds().user, rep_.realm).as_bytes()) => {
                 return Err(("USERHASH-is-not-SHA256(user:realm)".into(), "".into()))
             }
             _ => {}
@@ -240,8 +244,8 @@ fn check_packet(rep_: &Rep, app: &[L], bytes: &[u8], class: u8, method: u16, ear
     }
     let keys: Vec<Vec<u8>> = match rep_.cfg.mech {
         Mech::None => vec![b"application-key".to_vec()],
-        Mech::ShortTerm(_) => vec![PASS.as_bytes().to_vec()],
-        Mech::LongTerm => rep_.algs.iter().map(|a| lt_key(*a, rep_.realm, PASS)).collect(),
+        Mech::ShortTerm(_) => vec![rep_.cfg.creds().pass_key.as_bytes().to_vec()],
+        Mech::LongTerm => rep_.algs.iter().map(|a| super::server::lt_key_for(rep_.cfg.creds().user, *a, rep_.realm, rep_.cfg.creds().pass_key)).collect(),
     };
     for t in &p.tlvs[k..] {
         let ok = match t.ty {
@@ -284,6 +288,10 @@ pub fn run(ctx: &RunCtx) -> i32 {
             all_reps.extend(reps(fp, rel));
         }
     }
+    // the other credential sets (a 70-byte user name with a 129-byte password; the RFC 5769 Katakana user name with a
+    // password that OpaqueString enforcement changes), on one transport / fingerprint combination each
+    all_reps.extend(reps_for(false, false, 1).into_iter().filter(|r| !matches!(r.cfg.mech, Mech::None)));
+    all_reps.extend(reps_for(true, true, 2).into_iter().filter(|r| !matches!(r.cfg.mech, Mech::None)));
     let n_reps = all_reps.len();
     // (representative, list index) pairs in parallel
     let work: Vec<(usize, usize)> = (0..all_reps.len()).flat_map(|r| (0..n_lists).map(move |l| (r, l))).collect();
@@ -371,7 +379,7 @@ pub fn run(ctx: &RunCtx) -> i32 {
         rep,
         Finish {
             level: "model_checking",
-            rule: format!("{} application attribute lists (every sequence of length <= {} over a 12-entry alphabet: two SOFTWARE values, PRIORITY, and pre-populated USERNAME / REALM / NONCE / USERHASH / PASSWORD-ALGORITHM / PASSWORD-ALGORITHMS / MESSAGE-INTEGRITY / MESSAGE-INTEGRITY-SHA256 / FINGERPRINT) x {} credential-state representatives (14 states reached by replaying short histories on the real client: no mechanism; short-term unlearned / learned MI / learned SHA256 / configured MI / SHA256; long-term first request / retry after plain 401 / retry after cookie 401 with anonymity and algorithms / subsequent MD5 / subsequent SHA256 / retry after 438 / retry after a second 401 naming the realm in another letter case / subsequent request after a second 401 for another realm; each x fingerprint on/off x both transports) x {{request, indication}} (methods 0x003 and 0xFFF on a subset in the quick tier); every emitted packet is parsed by the independent TLV reader: class / method / fresh id, application attributes first (one per type, first-insertion position, last value), then only the mechanism's credential attributes with the client's (not the application's) values, then at most one MI, SHA256, FINGERPRINT in that order, each verifying under the configured credentials by independent HMAC / CRC, no type twice, FINGERPRINT last when configured; retransmissions along timer runs are byte-identical", n_lists, max_len, n_reps),
+            rule: format!("{} application attribute lists (every sequence of length <= {} over a 12-entry alphabet: two SOFTWARE values, PRIORITY, and pre-populated USERNAME / REALM / NONCE / USERHASH / PASSWORD-ALGORITHM / PASSWORD-ALGORITHMS / MESSAGE-INTEGRITY / MESSAGE-INTEGRITY-SHA256 / FINGERPRINT) x {} credential-state representatives (14 states reached by replaying short histories on the real client: no mechanism; short-term unlearned / learned MI / learned SHA256 / configured MI / SHA256; long-term first request / retry after plain 401 / retry after cookie 401 with anonymity and algorithms / subsequent MD5 / subsequent SHA256 / retry after 438 / retry after a second 401 naming the realm in another letter case / subsequent request after a second 401 for another realm; each x fingerprint on/off x both transports; the credential states again with a 70-byte user name / 129-byte password and with a non-ASCII user name / a password that OpaqueString enforcement rewrites) x {{request, indication}} (methods 0x003 and 0xFFF on a subset in the quick tier); every emitted packet is parsed by the independent TLV reader: class / method / fresh id, application attributes first (one per type, first-insertion position, last value), then only the mechanism's credential attributes with the client's (not the application's) values, then at most one MI, SHA256, FINGERPRINT in that order, each verifying under the configured credentials by independent HMAC / CRC, no type twice, FINGERPRINT last when configured; retransmissions along timer runs are byte-identical", n_lists, max_len, n_reps),
             assumptions: vec!["which credential attributes each long-term state requires is C08's question; C13 checks form, replacement and verification".into()],
             required_symbols: vec!["no-mechanism", "short-term/unlearned", "short-term/learned-SHA256", "long-term/first-request", "long-term/retry-after-401-cookie", "long-term/subsequent-SHA256", "long-term/retry-after-438", "long-term-indication-refused", "retransmission-identical"],
             min_outcomes: 12,
